@@ -51,7 +51,7 @@ def history(rng, case, idx):
     mp = (8, 12) if (big and rng.random() < 0.15) else (4, 6)
     w = World(rng, case, max_plate=mp)
     w.populate(n_containers=rng.randint(2, 4), n_plates=rng.randint(1, 3))
-    weights = {'cc': 5, 'cp': 4, 'pc': 3, 'pp': 6, 'remove': 1, 'fill': 1, 'observe': 0, 'newc': 1}
+    weights = {'cc': 5, 'cp': 4, 'pc': 3, 'pp': 6, 'remove': 1, 'fill': 1, 'observe': 0, 'newc': 1, 'kept': 2}
     for _ in range(rng.randint(8, 40)):
         w.history_step(weights)
 
